@@ -160,6 +160,10 @@ func init() {
 			e.taskRangesPartition(asT(a[0]))
 			return nil
 		},
+		rtPkg + "TableLoop": func(e *Engine, _ *frame, _ token.Pos, a []Value) Value {
+			e.tableLoop = &tableLoopSpec{varName: a[0].(string), lo: int64(asT(a[1]).Val), hi: int64(asT(a[2]).Val), storesPerIter: int(asT(a[3]).Val), stores: map[string]*term.T{}}
+			return nil
+		},
 		rtPkg + "SetCwd": func(e *Engine, _ *frame, _ token.Pos, a []Value) Value {
 			e.cwd = a[0].(string)
 			return nil
@@ -247,13 +251,13 @@ func init() {
 			}
 			return e.gomaxprocs
 		},
-		"fmt.Sprintf":             fmtSprintf,
-		"fmt.Errorf":              fmtErrorf,
-		"fmt.Printf":              func(e *Engine, _ *frame, _ token.Pos, a []Value) Value { return Tuple{cint(0), Iface{}} },
-		"fmt.Println":             func(e *Engine, _ *frame, _ token.Pos, a []Value) Value { return Tuple{cint(0), Iface{}} },
-		"fmt.Print":               func(e *Engine, _ *frame, _ token.Pos, a []Value) Value { return Tuple{cint(0), Iface{}} },
-		"fmt.Fprintf":             func(e *Engine, _ *frame, _ token.Pos, a []Value) Value { return Tuple{cint(0), Iface{}} },
-		"fmt.Sprint":              fmtSprint,
+		"fmt.Sprintf": fmtSprintf,
+		"fmt.Errorf":  fmtErrorf,
+		"fmt.Printf":  func(e *Engine, _ *frame, _ token.Pos, a []Value) Value { return Tuple{cint(0), Iface{}} },
+		"fmt.Println": func(e *Engine, _ *frame, _ token.Pos, a []Value) Value { return Tuple{cint(0), Iface{}} },
+		"fmt.Print":   func(e *Engine, _ *frame, _ token.Pos, a []Value) Value { return Tuple{cint(0), Iface{}} },
+		"fmt.Fprintf": func(e *Engine, _ *frame, _ token.Pos, a []Value) Value { return Tuple{cint(0), Iface{}} },
+		"fmt.Sprint":  fmtSprint,
 		"fmt.Sprintln": func(e *Engine, fr *frame, p token.Pos, a []Value) Value {
 			return fmtSprint(e, fr, p, a).(string) + "\n"
 		},
@@ -1003,6 +1007,28 @@ func (e *Engine) runLoopBody(caller *frame, name string, n int, pre Value) {
 			panic(unsupported("RunLoopBody: non-scalar loop variable " + p.Comment))
 		}
 		fr.env[p] = e.freshVar("loop_"+p.Comment, w)
+	}
+	if tl := e.tableLoop; tl != nil {
+		inLoop := loopBlocks(h)
+		for _, in := range h.Instrs {
+			p, ok := in.(*ssa.Phi)
+			if !ok || p.Comment != tl.varName {
+				continue
+			}
+			tl.phi = p
+			tl.iv = asT(fr.env[p])
+			for i, pred := range h.Preds {
+				if inLoop[pred] {
+					continue
+				}
+				c, isConst := p.Edges[i].(*ssa.Const)
+				starts := isConst && c.Value != nil && c.Int64() == tl.lo
+				e.obligation(term.Bool(starts), fmt.Sprintf("table-contract: the table loop starts at index %d", tl.lo), false)
+			}
+		}
+		if tl.phi == nil {
+			panic(unsupported("TableLoop: no loop variable named " + tl.varName))
+		}
 	}
 	if !isNilVal(pre) {
 		// assumed loop invariant over the loop variables (parameters by name)
